@@ -87,12 +87,8 @@ class LiteralToken(RegexpBaseToken):
         super().__init__(*args, *kwargs)
 
         if self.value[2]:
-            real_value = int(self.value[2])
-            if self.value[5]:
-                real_value += float(f'0.{self.value[5]}')
-            if self.value[7]:
-                # TODO in theory, the degree can be calculated using the expression
-                real_value *= 10 ** int(self.value[7])
+            # TODO in theory, the degree can be calculated using the expression
+            real_value = float(self.value[0]) if self.value[5] or self.value[7] else int(self.value[2])
             real_value = str(real_value)
         elif self.value[1] or self.value[0] == '""':
             real_value = repr(self.value[1])
